@@ -88,6 +88,76 @@ def ob_commit_fields(cx):
         cx.cover("author_tz")
 
 
+class _RawTag:
+    """Stand-in for dulwich.objects.Tag: only the raw serialisation travels through the mapping."""
+    def __init__(self, raw):
+        self.raw = raw
+
+    @classmethod
+    def from_string(cls, raw):
+        return cls(raw)
+
+    def as_raw_string(self):
+        return self.raw
+
+
+def ob_signature_and_mergetags(cx):
+    """gpg signature and merge tags are arbitrary BYTES that must survive import -> export unchanged whatever the commit's
+    text encoding is."""
+    import dulwich.objects as DO
+    M = cx.mod(MP)
+    m = M.BzrGitMappingv1()
+    c = _Commit()
+    c.id, c.tree, c.parents = b"a" * 40, b"b" * 40, []
+    c.committer = c.author = b"C <c@x>"
+    c.encoding = cx.pick("encoding", [None, b"utf-8", b"iso8859-1"])
+    c.commit_time = c.author_time = 1000
+    c.commit_timezone = c.author_timezone = 0
+    c._commit_timezone_neg_utc = c._author_timezone_neg_utc = False
+    c.message = cx.pick("message", [b"m\n", b"caf\xe9\n"]) if c.encoding != b"utf-8" else b"m\n"
+    c._extra = []
+    c.extra = c._extra
+    every = list(range(256))
+    # the byte strings are independent of each other: vary one at a time (their product only multiplies codec paths)
+    shape = cx.pick("shape", ["signature", "one_tag", "two_tags", "signature_and_tag"])
+    c.gpgsig = None
+    ntags = 0
+    if shape == "signature":
+        c.gpgsig = cx.bytes("gpgsig", cx.choose("lsig", 1, cx.p("lraw")), every)
+    elif shape == "one_tag":
+        ntags = 1
+        c.mergetag = [_RawTag(cx.bytes("tag0", cx.choose("ltag0", 1, cx.p("lraw")), every))]
+    elif shape == "two_tags":
+        ntags = 2
+        c.mergetag = [_RawTag(cx.bytes("tag0", 1, every)), _RawTag(cx.bytes("tag1", 1, every))]
+    else:
+        ntags = 1
+        c.gpgsig = cx.bytes("gpgsig", 1, every)
+        c.mergetag = [_RawTag(cx.bytes("tag0", 1, every))]
+    if not ntags:
+        c.mergetag = []
+    real_tag = DO.Tag
+    DO.Tag = _RawTag                  # export_commit imports Tag from dulwich.objects when it runs
+    try:
+        rev, rt_revid, verifiers = m.import_commit(c, _nolookup)
+        out = m.export_commit(rev, c.tree, _nolookup, True, verifiers)
+    finally:
+        DO.Tag = real_tag
+    cx.require((out.gpgsig is None) == (c.gpgsig is None), "gpg signature appeared / disappeared")
+    if c.gpgsig is not None:
+        cx.require(out.gpgsig == c.gpgsig, "gpg signature bytes changed")
+        cx.cover("signature")
+    cx.require(len(out.mergetag) == ntags, "number of merge tags changed")
+    for a, b in zip(out.mergetag, c.mergetag):
+        cx.require(a.as_raw_string() == b.as_raw_string(), "merge tag bytes changed")
+        cx.cover("mergetag")
+    cx.require(out.message == c.message and out.encoding == c.encoding, "message / encoding changed")
+    if c.encoding == b"iso8859-1":
+        cx.cover("latin1")
+    cx.observe("sig", out.gpgsig)
+    cx.observe("tags", [t.as_raw_string() for t in out.mergetag])
+
+
 def _token(cx, name, lmax, lo=1, exclude=b" \t\n\r\x0b\x0c"):
     t = cx.bytes(name, cx.choose(name + ".len", lo, lmax), list(range(0, 128)))
     for ch in t:
@@ -143,9 +213,14 @@ def ob_metadata(cx):
 
 def obligations(tier):
     q = tier == "quick"
-    p = dict(tmax=999 if q else 999999, tzmax=99 if q else 99999, lmsg=2 if q else 4, lid=2 if q else 3, lval=2 if q else 4)
+    p = dict(tmax=999 if q else 999999, tzmax=99 if q else 99999, lmsg=2 if q else 4, lid=2 if q else 3, lval=2 if q else 4,
+             lraw=2 if q else 3)
     to = 900 if q else 7200
     return [
+        Ob("signature_and_mergetags", ob_signature_and_mergetags, ["breezy.revision", "breezy.foreign", RT, MP], p, to,
+           2 if q else 1, ["signature", "mergetag", "latin1"],
+           bounds="gpg signature and <= 2 merge tags of <= %(lraw)d ARBITRARY bytes each (0..255); commit encoding header "
+                  "absent / utf-8 / iso8859-1, ASCII or latin-1 message" % p),
         Ob("commit_fields", ob_commit_fields, ["breezy.revision", "breezy.foreign", RT, MP], p, to, 3 if q else 1, ["message", "author_time", "author_tz"],
            known=["C34-missing-message-export"],
            bounds="times 0..%(tmax)d, time zones +-%(tzmax)d, both negative-UTC flags, author = / != committer, encoding "
